@@ -118,6 +118,8 @@ pub struct TlsPeer {
     dead: bool,
     /// KeyUpdate requests sent on this connection so far (at most one)
     key_updates: u32,
+    /// when not 0: the server's handshake flight goes out one octet at a time, this far apart
+    pub handshake_drip_ns: u64,
 }
 
 impl TlsPeer {
@@ -130,7 +132,7 @@ impl TlsPeer {
             l.sessions.push(TlsSession { conn, ..Default::default() });
             l.sessions.len() - 1
         };
-        TlsPeer { tls, inner, log, idx, dead: false, key_updates: 0 }
+        TlsPeer { tls, inner, log, idx, dead: false, key_updates: 0, handshake_drip_ns: 0 }
     }
 }
 
@@ -225,6 +227,7 @@ impl Peer for TlsPeer {
                 s.first_byte = data.first().copied();
             }
         }
+        let was_handshaking = self.tls.is_handshaking();
         let mut rd = data;
         let mut plain = Vec::new();
         while !rd.is_empty() {
@@ -261,7 +264,21 @@ impl Peer for TlsPeer {
             s.handshake_done = !self.tls.is_handshaking();
             s.plaintext_in += plain.len();
         }
-        flush(&mut self.tls, c, 0);
+        if was_handshaking && self.handshake_drip_ns > 0 {
+            // the handshake flight, an octet at a time
+            let mut out = Vec::new();
+            while self.tls.wants_write() {
+                if self.tls.write_tls(&mut out).is_err() {
+                    break;
+                }
+            }
+            for (i, b) in out.iter().enumerate() {
+                c.send_at(i as u64 * self.handshake_drip_ns, vec![*b]);
+            }
+            c.count_fault("tls-handshake-dripped");
+        } else {
+            flush(&mut self.tls, c, 0);
+        }
         if !plain.is_empty() {
             let mut ctl = TlsCtl { outer: c, tls: &mut self.tls, log: &self.log, idx: self.idx, key_updates: &mut self.key_updates };
             self.inner.on_bytes(&mut ctl, &plain);
